@@ -361,9 +361,9 @@ where
     /// Returns a string reference to a slice of text as specified by the offset
     fn text_by_offset(&self, offset: &Offset) -> Result<&'store str, StamError> {
         let beginbyte =
-            self.utf8byte(self.absolute_cursor(self.beginaligned_cursor(&offset.begin)?))?;
+            self.utf8byte(self.beginaligned_cursor(&offset.begin)?)?;
         let endbyte =
-            self.utf8byte(self.absolute_cursor(self.beginaligned_cursor(&offset.end)?))?;
+            self.utf8byte(self.beginaligned_cursor(&offset.end)?)?;
         if endbyte < beginbyte {
             Err(StamError::InvalidOffset(
                 Cursor::BeginAligned(beginbyte),
@@ -541,9 +541,9 @@ where
     /// Returns a string reference to a slice of text as specified by the offset
     fn text_by_offset(&'slf self, offset: &Offset) -> Result<&'store str, StamError> {
         let beginbyte =
-            self.utf8byte(self.absolute_cursor(self.beginaligned_cursor(&offset.begin)?))?;
+            self.utf8byte(self.beginaligned_cursor(&offset.begin)?)?;
         let endbyte =
-            self.utf8byte(self.absolute_cursor(self.beginaligned_cursor(&offset.end)?))?;
+            self.utf8byte(self.beginaligned_cursor(&offset.end)?)?;
         if endbyte < beginbyte {
             Err(StamError::InvalidOffset(
                 Cursor::BeginAligned(beginbyte),
